@@ -40,8 +40,8 @@ theorem strict_default :
     (asyncssh) read from the AST equals the order cited in HostKey.lean -/
 theorem open_order_is_modelled :
     paramikoOpenCalls = paramikoOrder ∧ ssh2OpenCalls = ssh2Order ∧
-    asyncsshOpenCalls = asyncsshOrder (pinOf asyncsshOpenCalls || fallbackOf asyncsshOpenCalls)
-      (fallbackOf asyncsshOpenCalls) := by decide
+    asyncsshOpenCalls = asyncsshOrder (connectFlags asyncsshOpenCalls).1 (connectFlags asyncsshOpenCalls).2.1
+      (connectFlags asyncsshOpenCalls).2.2 := by decide
 
 /-! ### the ordering theorem, for EVERY call order -/
 
@@ -53,15 +53,32 @@ theorem open_order_is_modelled :
 theorem order_protects (lib : Lib) (calls : List (Call × Bool)) (hsafe : safeOrder calls = true)
     (c : Cfg) (hs : c.strict = true) (hk : c.kexOK = true) (hl : c.hasKey = true → c.keyLoads = true)
     (hu : c.found = false ∨ c.equal = false) : protectedTrace (run lib calls c) = true := by
-  have h := order_protects_aux lib c hs hk hl hu calls false {} hsafe (by simp) rfl rfl
+  have h := order_protects_aux lib c hs hk hl hu calls false {} (safeFromG_mono _ _ _ _ hsafe) (by simp) rfl rfl
   simp only [protectedTrace, run, Bool.and_eq_true]
   exact ⟨h.2.1, by rw [h.2.2]; rfl⟩
 
-/-- the orders found in the source of paramiko and ssh2 pass the static check; asyncssh's passes
-    exactly when strict mode hands the expected key to `asyncssh.connect` and cannot end up without it -/
+/-- **order_protects_partial** — the same under the weaker static check `safeOrderP` (a `connect` whose
+    pinned key the user's `transport_options` could take away again is accepted) WITH the extra
+    hypothesis that the user's options do not carry `known_hosts: None`.  Outside that hypothesis the
+    statement is false: `asyncssh_user_override_witness`. -/
+theorem order_protects_partial (lib : Lib) (calls : List (Call × Bool)) (hsafe : safeOrderP calls = true)
+    (c : Cfg) (hus : c.userUnpins = false) (hs : c.strict = true) (hk : c.kexOK = true)
+    (hl : c.hasKey = true → c.keyLoads = true)
+    (hu : c.found = false ∨ c.equal = false) : protectedTrace (run lib calls c) = true := by
+  have h := order_protects_aux lib c hs hk hl hu calls false {} (by rw [hus]; exact hsafe) (by simp) rfl rfl
+  simp only [protectedTrace, run, Bool.and_eq_true]
+  exact ⟨h.2.1, by rw [h.2.2]; rfl⟩
+
+/-- the orders found in the source of paramiko and ssh2 pass the static check unconditionally; asyncssh's
+    passes the weaker one (`safeOrderP`: provided the user's options do not unpin), and the unconditional
+    one exactly when strict mode pins the expected key, cannot end up without it, and the user's options
+    are not merged in after the pin -/
 theorem source_orders_checked :
     safeOrder paramikoOpenCalls = true ∧ safeOrder ssh2OpenCalls = true ∧
-    safeOrder asyncsshOpenCalls = pinOf asyncsshOpenCalls := by decide
+    safeOrderP asyncsshOpenCalls = true ∧
+    safeOrder asyncsshOpenCalls =
+      ((connectFlags asyncsshOpenCalls).1 && !(connectFlags asyncsshOpenCalls).2.1 &&
+       !(connectFlags asyncsshOpenCalls).2.2) := by decide
 
 /-! ### paramiko and ssh2: full statement, every known_hosts content -/
 
@@ -136,44 +153,61 @@ theorem asyncssh_absent_protected (hmac : String → String → String) (imp : S
       (by decide +kernel) (cfgOf hmac imp es host serverKey env)
   simp_all
 
-/-- the full statement for asyncssh, for a given treatment of `known_hosts=` -/
-def AsyncsshFull (pin fb : Bool) : Prop :=
+/-- the full statement for asyncssh, for a given treatment of `known_hosts=`: EVERY configuration,
+    including every content of the user's transport options -/
+def AsyncsshFull (pin fb ov : Bool) : Prop :=
   ∀ c : Cfg, c.strict = true → c.kexOK = true → (c.hasKey = true → c.keyLoads = true) →
-    (c.found = false ∨ c.equal = false) → protectedTrace (run .asyncssh (asyncsshOrder pin fb) c) = true
+    (c.found = false ∨ c.equal = false) → protectedTrace (run .asyncssh (asyncsshOrder pin fb ov) c) = true
 
 /-- the witness: strict, host present with ANOTHER key, password authentication -/
 def leakCfg : Cfg :=
   { strict := true, found := true, equal := false, importable := true, hasKey := false, keyLoads := false,
-    hasPw := true, hasUser := true, kexOK := true, accKey := false, accPw := true }
+    hasPw := true, hasUser := true, kexOK := true, accKey := false, accPw := true, userUnpins := false }
 
 /-- the second witness: as above but the known_hosts line holds a key asyncssh cannot load
     (truncated / garbage / mislabelled blob) -/
 def unusableCfg : Cfg := { leakCfg with importable := false }
 
+/-- the third witness: as the first, and the user passes `transport_options={"asyncssh": {"known_hosts": None}}` -/
+def userUnpinsCfg : Cfg := { leakCfg with userUnpins := true }
+
 /-- **asyncssh, present with another key — REFUTED for the unrepaired order** (`known_hosts=None`
     handed to `connect()`, value compared afterwards): the password is offered BEFORE the mismatch is
     raised.  Witness trace, machine-checked.  (Finding F19, repaired by 304e179.) -/
 theorem asyncssh_unpinned_witness :
-    run .asyncssh (asyncsshOrder false false) leakCfg =
+    run .asyncssh (asyncsshOrder false false false) leakCfg =
       [Ev.lookup true false, Ev.kex, Ev.offerPassword, Ev.lookup true false, Ev.verifyFail,
        Ev.raise Exc.authenticationFailed] := by decide
 
-theorem asyncssh_unpinned_full_refuted (fb : Bool) : ¬ AsyncsshFull false fb := by
+theorem asyncssh_unpinned_full_refuted (fb ov : Bool) : ¬ AsyncsshFull false fb ov := by
   intro h
   have := h leakCfg rfl rfl (by decide) (Or.inr rfl)
-  cases fb <;> revert this <;> decide
+  cases fb <;> cases ov <;> revert this <;> decide
 
 /-- **asyncssh, UNUSABLE key in known_hosts — REFUTED for an order whose key loader has a non-raising
     path** (`fallback`): with a line for the host whose key cannot be imported, `connect()` gets
     `known_hosts=None` and the password is offered to an unverified server. -/
 theorem asyncssh_fallback_witness :
-    run .asyncssh (asyncsshOrder true true) unusableCfg =
+    run .asyncssh (asyncsshOrder true true false) unusableCfg =
       [Ev.lookup true false, Ev.lookup true false, Ev.kex, Ev.offerPassword, Ev.lookup true false,
        Ev.verifyFail, Ev.raise Exc.authenticationFailed] := by decide
 
-theorem asyncssh_fallback_full_refuted : ¬ AsyncsshFull true true := by
+theorem asyncssh_fallback_full_refuted (ov : Bool) : ¬ AsyncsshFull true true ov := by
   intro h
   have := h unusableCfg rfl rfl (by decide) (Or.inr rfl)
+  cases ov <;> revert this <;> decide
+
+/-- **asyncssh, user options merged in AFTER the pin — REFUTED** (`overridable`; the source at 614e50e,
+    finding F27): `transport_options={"asyncssh": {"known_hosts": None}}` takes the expected key away
+    again although strict checking is on; the password is offered before the mismatch is raised. -/
+theorem asyncssh_user_override_witness :
+    run .asyncssh (asyncsshOrder true false true) userUnpinsCfg =
+      [Ev.lookup true false, Ev.lookup true false, Ev.kex, Ev.offerPassword, Ev.lookup true false,
+       Ev.verifyFail, Ev.raise Exc.authenticationFailed] := by decide
+
+theorem asyncssh_user_override_full_refuted : ¬ AsyncsshFull true false true := by
+  intro h
+  have := h userUnpinsCfg rfl rfl (by decide) (Or.inr rfl)
   revert this; decide
 
 /-- … and what remains true of the unrepaired order (`_partial`): everything except "present with
@@ -181,13 +215,13 @@ theorem asyncssh_fallback_full_refuted : ¬ AsyncsshFull true true := by
     ScrapliAuthenticationFailed (only too late). -/
 theorem asyncssh_unpinned_partial (c : Cfg) (hs : c.strict = true) (hk : c.kexOK = true)
     (hl : c.hasKey = true → c.keyLoads = true) :
-    (c.found = false → protectedTrace (run .asyncssh (asyncsshOrder false false) c) = true) ∧
+    (c.found = false → protectedTrace (run .asyncssh (asyncsshOrder false false false) c) = true) ∧
     (c.found = true → c.equal = false →
-      (run .asyncssh (asyncsshOrder false false) c).getLast? = some (Ev.raise Exc.authenticationFailed)) := by
+      (run .asyncssh (asyncsshOrder false false false) c).getLast? = some (Ev.raise Exc.authenticationFailed)) := by
   have := forallCfg_spec (p := fun c => !(c.strict && c.kexOK && (!c.hasKey || c.keyLoads)) ||
-      ((c.found || protectedTrace (run .asyncssh (asyncsshOrder false false) c)) &&
+      ((c.found || protectedTrace (run .asyncssh (asyncsshOrder false false false) c)) &&
        (!c.found || c.equal ||
-        (run .asyncssh (asyncsshOrder false false) c).getLast? == some (Ev.raise Exc.authenticationFailed))))
+        (run .asyncssh (asyncsshOrder false false false) c).getLast? == some (Ev.raise Exc.authenticationFailed))))
       (by decide +kernel) c
   have hA : (c.strict && c.kexOK && (!c.hasKey || c.keyLoads)) = true := by
     cases hh : c.hasKey <;> simp_all
@@ -202,72 +236,90 @@ theorem asyncssh_unpinned_partial (c : Cfg) (hs : c.strict = true) (hk : c.kexOK
     · simp [he] at h
     · simpa using h
 
-/-- **asyncssh, full statement ⇔ the expected key is pinned into `connect()` with no way around it** -/
-theorem asyncssh_full_iff_pinned (pin fb : Bool) : AsyncsshFull pin fb ↔ (pin = true ∧ fb = false) := by
+/-- **asyncssh, full statement ⇔ the expected key is pinned into `connect()` with no way around it**:
+    pinned, the loader raises on every path that yields no key, and the user's options cannot replace it -/
+theorem asyncssh_full_iff_pinned (pin fb ov : Bool) :
+    AsyncsshFull pin fb ov ↔ (pin = true ∧ fb = false ∧ ov = false) := by
   constructor
   · intro h
     cases pin with
-    | false => exact absurd h (asyncssh_unpinned_full_refuted fb)
+    | false => exact absurd h (asyncssh_unpinned_full_refuted fb ov)
     | true =>
       cases fb with
-      | false => exact ⟨rfl, rfl⟩
-      | true => exact absurd h asyncssh_fallback_full_refuted
-  · rintro ⟨rfl, rfl⟩ c hs hk hl hu
-    exact order_protects .asyncssh (asyncsshOrder true false) (by decide) c hs hk hl hu
+      | true => exact absurd h (asyncssh_fallback_full_refuted ov)
+      | false =>
+        cases ov with
+        | false => exact ⟨rfl, rfl, rfl⟩
+        | true => exact absurd h asyncssh_user_override_full_refuted
+  · rintro ⟨rfl, rfl, rfl⟩ c hs hk hl hu
+    exact order_protects .asyncssh (asyncsshOrder true false false) (by decide) c hs hk hl hu
 
-/-- the same, for the order found in the CURRENT source: the full statement holds for asyncssh exactly
-    when the generated order passes the static check (expected key pinned, loader raises on every path
-    that yields no key). -/
+/-- the same, for the order found in the CURRENT source: the full statement (every configuration, every
+    content of the user's transport options) holds for asyncssh exactly when the generated order passes
+    the unconditional static check.  At 614e50e it does NOT (`overridable`): finding F27. -/
 theorem asyncssh_current :
     (∀ c : Cfg, c.strict = true → c.kexOK = true → (c.hasKey = true → c.keyLoads = true) →
       (c.found = false ∨ c.equal = false) → protectedTrace (asyncsshOpen c) = true) ↔
     safeOrder asyncsshOpenCalls = true := by
-  have h := asyncssh_full_iff_pinned (pinOf asyncsshOpenCalls || fallbackOf asyncsshOpenCalls)
-    (fallbackOf asyncsshOpenCalls)
+  have h := asyncssh_full_iff_pinned (connectFlags asyncsshOpenCalls).1 (connectFlags asyncsshOpenCalls).2.1
+    (connectFlags asyncsshOpenCalls).2.2
   unfold AsyncsshFull at h
   unfold asyncsshOpen
   rw [open_order_is_modelled.2.2]
   rw [h]
-  cases (pinOf asyncsshOpenCalls || fallbackOf asyncsshOpenCalls) <;> cases (fallbackOf asyncsshOpenCalls) <;> decide
+  cases (connectFlags asyncsshOpenCalls).1 <;> cases (connectFlags asyncsshOpenCalls).2.1 <;>
+    cases (connectFlags asyncsshOpenCalls).2.2 <;> decide
 
-/-- **the current source holds the full statement for asyncssh** (generated order: key pinned, no
-    fallback) -/
-theorem asyncssh_current_holds : safeOrder asyncsshOpenCalls = true := by decide
+/-- **asyncssh_current_partial** — what IS proved of the asyncssh order in the current source, whichever
+    of the two trees (before / after the F27 repair) it is: the full statement for every configuration
+    whose user options do not carry `known_hosts: None`.  (Was `asyncssh_current_holds`, which claimed it
+    without that hypothesis — wrong for the source up to 614e50e, see `asyncssh_user_override_witness`.) -/
+theorem asyncssh_current_partial (c : Cfg) (hus : c.userUnpins = false) (hs : c.strict = true)
+    (hk : c.kexOK = true) (hl : c.hasKey = true → c.keyLoads = true)
+    (hu : c.found = false ∨ c.equal = false) : protectedTrace (asyncsshOpen c) = true :=
+  order_protects_partial .asyncssh asyncsshOpenCalls source_orders_checked.2.2.1 c hus hs hk hl hu
 
-/-- **asyncssh, unusable key** (repaired order): strict and the line found for the host holds a key
-    asyncssh cannot load ⇒ `open()` raises ScrapliAuthenticationFailed before touching the network —
-    whatever the blob is (even one textually equal to the server's key: fail closed). -/
-theorem asyncssh_unusable_key_protected (c : Cfg) (hs : c.strict = true) (hf : c.found = true)
+/-- **asyncssh, unusable key** (pinned order, overridable or not — the loader runs before the user's
+    options matter): strict and the line found for the host holds a key asyncssh cannot load ⇒ `open()`
+    raises ScrapliAuthenticationFailed before touching the network — whatever the blob is (even one
+    textually equal to the server's key: fail closed), whatever the user's options. -/
+theorem asyncssh_unusable_key_protected (ov : Bool) (c : Cfg) (hs : c.strict = true) (hf : c.found = true)
     (hi : c.importable = false) :
-    run .asyncssh (asyncsshOrder true false) c =
+    run .asyncssh (asyncsshOrder true false ov) c =
       [Ev.lookup true c.equal, Ev.lookup true c.equal, Ev.raise Exc.authenticationFailed] := by
   have := forallCfg_spec (p := fun c => !(c.strict && c.found && !c.importable) ||
-      (run .asyncssh (asyncsshOrder true false) c ==
-        [Ev.lookup true c.equal, Ev.lookup true c.equal, Ev.raise Exc.authenticationFailed]))
+      ((run .asyncssh (asyncsshOrder true false false) c ==
+        [Ev.lookup true c.equal, Ev.lookup true c.equal, Ev.raise Exc.authenticationFailed]) &&
+       (run .asyncssh (asyncsshOrder true false true) c ==
+        [Ev.lookup true c.equal, Ev.lookup true c.equal, Ev.raise Exc.authenticationFailed])))
       (by decide +kernel) c
   have := imp_of_bool this (by rw [hs, hf, hi]; rfl)
-  simpa using this
+  simp only [Bool.and_eq_true, beq_iff_eq] at this
+  cases ov
+  · exact this.1
+  · exact this.2
 
-/-- repaired order, concrete known_hosts, every importability predicate: entry absent, other key, or
-    UNUSABLE key (any blob different from the server's) — nothing is offered -/
+/-- pinned order, concrete known_hosts, every importability predicate: entry absent, other key, or
+    UNUSABLE key (any blob different from the server's) — nothing is offered; for the overridable order
+    provided the user's options do not unpin -/
 theorem asyncssh_pinned_no_offer (hmac : String → String → String) (imp : String → String → Bool) (es : List Entry) (host serverKey : String)
-    (env : Env) (hs : env.strict = true) (hk : env.kexOK = true) (hl : env.hasKey = true → env.keyLoads = true)
+    (env : Env) (ov : Bool) (hov : ov = false ∨ env.userUnpins = false)
+    (hs : env.strict = true) (hk : env.kexOK = true) (hl : env.hasKey = true → env.keyLoads = true)
     (hun : ∀ e ∈ es, Names hmac host e → e.key ≠ serverKey) :
-    protectedTrace (run .asyncssh (asyncsshOrder true false) (cfgOf hmac imp es host serverKey env)) = true :=
-  order_protects .asyncssh (asyncsshOrder true false) (by decide) _ (by simp [cfgOf, hs]) (by simp [cfgOf, hk])
-    (by simpa [cfgOf] using hl) (untrusted_of_entries hmac imp es host serverKey env hun)
+    protectedTrace (run .asyncssh (asyncsshOrder true false ov) (cfgOf hmac imp es host serverKey env)) = true := by
+  rcases hov with rfl | hus
+  · exact order_protects .asyncssh (asyncsshOrder true false false) (by decide) _ (by simp [cfgOf, hs]) (by simp [cfgOf, hk])
+      (by simpa [cfgOf] using hl) (untrusted_of_entries hmac imp es host serverKey env hun)
+  · exact order_protects_partial .asyncssh (asyncsshOrder true false ov) (by cases ov <;> decide) _ (by simp [cfgOf, hus])
+      (by simp [cfgOf, hs]) (by simp [cfgOf, hk]) (by simpa [cfgOf] using hl)
+      (untrusted_of_entries hmac imp es host serverKey env hun)
 
 /-! ### histories: retries on one transport object -/
 
-/-- **no_offer_in_any_attempt**: take ANY set of paths through `open()` that all pass the static check.
-    For every initial transport state, every history of attempts on the same object (with or without
-    `close()` in between, each attempt taking any of the paths — however the state left behind steers
-    it — under its own known_hosts content and server behaviour): every attempt made with strict on,
-    handshake ok, usable private key, and a lookup that is empty or yields another / unusable key ends
-    in ScrapliAuthenticationFailed with NO key / password offered.  Induction over the attempt list. -/
-theorem no_offer_in_any_attempt (lib : Lib) (paths : List (List (Call × Bool)))
-    (hsafe : ∀ p ∈ paths, safeOrder p = true) :
-    ∀ (hist : List Attempt) (st : TState), (∀ a ∈ hist, a.path ∈ paths) →
+/-- general form: every attempt's path passes the static check for THAT attempt's user options -/
+theorem no_offer_in_any_attempt_g (lib : Lib) :
+    ∀ (hist : List Attempt) (st : TState),
+      (∀ a ∈ hist, safeFromG a.cfg.userUnpins false false a.path = true) →
       ∀ x ∈ hist.zip (runHistory lib st hist),
         x.1.cfg.strict = true → x.1.cfg.kexOK = true → (x.1.cfg.hasKey = true → x.1.cfg.keyLoads = true) →
         (x.1.cfg.found = false ∨ x.1.cfg.equal = false) → protectedTrace x.2 = true := by
@@ -278,34 +330,78 @@ theorem no_offer_in_any_attempt (lib : Lib) (paths : List (List (Call × Bool)))
     intro st hp x hx hs hk hl hu
     simp only [runHistory, List.zip_cons_cons, List.mem_cons] at hx
     rcases hx with rfl | hx
-    · exact order_protects lib a.path (hsafe _ (hp a (List.mem_cons_self ..))) a.cfg hs hk hl hu
+    · have h := order_protects_aux lib a.cfg hs hk hl hu a.path false {} (hp a (List.mem_cons_self ..)) (by simp) rfl rfl
+      simp only [protectedTrace, attemptStep, run, Bool.and_eq_true]
+      exact ⟨h.2.1, by rw [h.2.2]; rfl⟩
     · exact ih _ (fun b hb => hp b (List.mem_cons_of_mem _ hb)) x hx hs hk hl hu
 
+/-- **no_offer_in_any_attempt**: take ANY set of paths through `open()` that all pass the static check.
+    For every initial transport state, every history of attempts on the same object (with or without
+    `close()` in between, each attempt taking any of the paths — however the state left behind steers
+    it — under its own known_hosts content, user options and server behaviour): every attempt made with
+    strict on, handshake ok, usable private key, and a lookup that is empty or yields another / unusable
+    key ends in ScrapliAuthenticationFailed with NO key / password offered.  Induction over the attempt
+    list. -/
+theorem no_offer_in_any_attempt (lib : Lib) (paths : List (List (Call × Bool)))
+    (hsafe : ∀ p ∈ paths, safeOrder p = true) (hist : List Attempt) (st : TState)
+    (hp : ∀ a ∈ hist, a.path ∈ paths) :
+    ∀ x ∈ hist.zip (runHistory lib st hist),
+      x.1.cfg.strict = true → x.1.cfg.kexOK = true → (x.1.cfg.hasKey = true → x.1.cfg.keyLoads = true) →
+      (x.1.cfg.found = false ∨ x.1.cfg.equal = false) → protectedTrace x.2 = true :=
+  no_offer_in_any_attempt_g lib hist st (fun a ha => safeFromG_mono _ _ _ _ (hsafe _ (hp a ha)))
+
+/-- **no_offer_in_any_attempt_partial**: the same for paths that pass only the weaker check `safeOrderP`,
+    for histories in which no attempt's user options carry `known_hosts: None` -/
+theorem no_offer_in_any_attempt_partial (lib : Lib) (paths : List (List (Call × Bool)))
+    (hsafe : ∀ p ∈ paths, safeOrderP p = true) (hist : List Attempt) (st : TState)
+    (hp : ∀ a ∈ hist, a.path ∈ paths) (hus : ∀ a ∈ hist, a.cfg.userUnpins = false) :
+    ∀ x ∈ hist.zip (runHistory lib st hist),
+      x.1.cfg.strict = true → x.1.cfg.kexOK = true → (x.1.cfg.hasKey = true → x.1.cfg.keyLoads = true) →
+      (x.1.cfg.found = false ∨ x.1.cfg.equal = false) → protectedTrace x.2 = true :=
+  no_offer_in_any_attempt_g lib hist st (fun a ha => by rw [hus a ha]; exact hsafe _ (hp a ha))
+
 /-- GENERATED DATA: every path through each `open()` of the current source passes the static check
-    (the verification dominates the credential-carrying call), and each `open()` has exactly the one
-    path the model was written against -/
+    (the verification dominates the credential-carrying call) — unconditionally for paramiko and ssh2,
+    provided the user's options do not unpin for asyncssh — and each `open()` has exactly the one path
+    the model was written against -/
 theorem open_paths_checked :
     (paramikoOpenPaths.all safeOrder) = true ∧ (ssh2OpenPaths.all safeOrder) = true ∧
-    (asyncsshOpenPaths.all safeOrder) = true ∧
+    (asyncsshOpenPaths.all safeOrderP) = true ∧
     paramikoOpenPaths = [paramikoOpenCalls] ∧ ssh2OpenPaths = [ssh2OpenCalls] ∧
     asyncsshOpenPaths = [asyncsshOpenCalls] := by decide
 
-/-- the history theorem for the three transports as they are in the source -/
-theorem no_offer_in_any_attempt_current (lib : Lib) (hist : List Attempt) (st : TState)
+/-- the history theorem for the three transports as they are in the source (asyncssh: partial, see
+    `asyncssh_current_partial`; the hypothesis on the user's options is vacuous for paramiko / ssh2,
+    whose `open()` does not read them) -/
+theorem no_offer_in_any_attempt_current_partial (lib : Lib) (hist : List Attempt) (st : TState)
     (hp : ∀ a ∈ hist, a.path ∈ (match lib with
-      | .paramiko => paramikoOpenPaths | .ssh2 => ssh2OpenPaths | .asyncssh => asyncsshOpenPaths)) :
+      | .paramiko => paramikoOpenPaths | .ssh2 => ssh2OpenPaths | .asyncssh => asyncsshOpenPaths))
+    (hus : ∀ a ∈ hist, a.cfg.userUnpins = false) :
     ∀ x ∈ hist.zip (runHistory lib st hist),
       x.1.cfg.strict = true → x.1.cfg.kexOK = true → (x.1.cfg.hasKey = true → x.1.cfg.keyLoads = true) →
       (x.1.cfg.found = false ∨ x.1.cfg.equal = false) → protectedTrace x.2 = true := by
   have hall : ∀ p ∈ (match lib with
       | .paramiko => paramikoOpenPaths | .ssh2 => ssh2OpenPaths | .asyncssh => asyncsshOpenPaths),
-      safeOrder p = true := by
+      safeOrderP p = true := by
     have h := open_paths_checked
     cases lib <;> simp only [] <;> intro p hp'
-    · exact List.all_eq_true.mp h.1 p hp'
-    · exact List.all_eq_true.mp h.2.1 p hp'
+    · exact safeFromG_mono _ _ _ _ (List.all_eq_true.mp h.1 p hp')
+    · exact safeFromG_mono _ _ _ _ (List.all_eq_true.mp h.2.1 p hp')
     · exact List.all_eq_true.mp h.2.2.1 p hp'
-  exact no_offer_in_any_attempt lib _ hall hist st hp
+  exact no_offer_in_any_attempt_partial lib _ hall hist st hp hus
+
+/-- paramiko and ssh2 in the current source: the history theorem without any hypothesis on user options -/
+theorem no_offer_in_any_attempt_current (hist : List Attempt) (st : TState) :
+    ((∀ a ∈ hist, a.path ∈ paramikoOpenPaths) →
+      ∀ x ∈ hist.zip (runHistory .paramiko st hist),
+        x.1.cfg.strict = true → x.1.cfg.kexOK = true → (x.1.cfg.hasKey = true → x.1.cfg.keyLoads = true) →
+        (x.1.cfg.found = false ∨ x.1.cfg.equal = false) → protectedTrace x.2 = true) ∧
+    ((∀ a ∈ hist, a.path ∈ ssh2OpenPaths) →
+      ∀ x ∈ hist.zip (runHistory .ssh2 st hist),
+        x.1.cfg.strict = true → x.1.cfg.kexOK = true → (x.1.cfg.hasKey = true → x.1.cfg.keyLoads = true) →
+        (x.1.cfg.found = false ∨ x.1.cfg.equal = false) → protectedTrace x.2 = true) :=
+  ⟨fun hp => no_offer_in_any_attempt .paramiko _ (fun p h => List.all_eq_true.mp open_paths_checked.1 p h) hist st hp,
+   fun hp => no_offer_in_any_attempt .ssh2 _ (fun p h => List.all_eq_true.mp open_paths_checked.2.1 p h) hist st hp⟩
 
 /-- why EVERY path matters: a path that reaches `_authenticate` without `_verify_key` (a retry that
     reuses the session an earlier, correctly failed attempt left behind) offers the password -/
@@ -429,10 +525,10 @@ def exEntries : List Entry :=
 def exHmac : String → String → String := fun s h => h ++ "/" ++ s
 def exImp : String → String → Bool := fun kt _ => kt != "ssh-bogus"
 def exEnv : Env := { strict := true, hasKey := true, keyLoads := true, hasPw := true, hasUser := true,
-                     kexOK := true, accKey := true, accPw := true }
+                     kexOK := true, accKey := true, accPw := true, userUnpins := false }
 
 def exEnv2 : Env := { strict := true, hasKey := false, keyLoads := false, hasPw := true, hasUser := true,
-                      kexOK := true, accKey := false, accPw := false }
+                      kexOK := true, accKey := false, accPw := false, userUnpins := false }
 
 example : lookup exHmac (parse exEntries) "r1" = some ("ssh-rsa", "OTHER3") ∧
     lookup exHmac (parse exEntries) "r2" = some ("ssh-rsa", "SRV") ∧
@@ -446,11 +542,14 @@ example : lookup exHmac (parse exEntries) "r1" = some ("ssh-rsa", "OTHER3") ∧
 
 example : safeOrder [(.authenticate, false), (.handshake, false), (.verifyKey, true)] = false ∧
     safeOrder [(.handshake, false), (.authenticate, false), (.verifyKey, true), (.openChannel, false)] = false ∧
-    safeOrder (asyncsshOrder false false) = false ∧ safeOrder (asyncsshOrder true true) = false ∧
-    safeOrder (asyncsshOrder true false) = true ∧
-    run .asyncssh (asyncsshOrder true false) unusableCfg =
+    safeOrder (asyncsshOrder false false false) = false ∧ safeOrder (asyncsshOrder true true false) = false ∧
+    safeOrder (asyncsshOrder true false true) = false ∧ safeOrderP (asyncsshOrder true false true) = true ∧
+    safeOrder (asyncsshOrder true false false) = true ∧
+    run .asyncssh (asyncsshOrder true false false) userUnpinsCfg =
+      [Ev.lookup true false, Ev.lookup true false, Ev.kex, Ev.verifyFail, Ev.raise Exc.authenticationFailed] ∧
+    run .asyncssh (asyncsshOrder true false false) unusableCfg =
       [Ev.lookup true false, Ev.lookup true false, Ev.raise Exc.authenticationFailed] ∧
-    run .asyncssh (asyncsshOrder true false) leakCfg =
+    run .asyncssh (asyncsshOrder true false false) leakCfg =
       [Ev.lookup true false, Ev.lookup true false, Ev.kex, Ev.verifyFail, Ev.raise Exc.authenticationFailed] := by decide
 
 def exArgs : SysArgs :=
